@@ -20,6 +20,9 @@ def r7(ctx):
 
 
 RULES = {
+    "C09.R9": lambda ctx: bldrules.builder_new(ctx, "C09.R9"),
+    "C09.R9b": lambda ctx: bldrules.local_contents_only_when_missing(ctx, "C09.R9b"),
+    "C09.R9c": lambda ctx: bldrules.rewrite_delegates(ctx, "C09.R9c"),
     "C09.R8": lambda ctx: __import__("rules.typesrules", fromlist=["x"]).key_agreement(ctx, "C09.R8"),
     "C09.RL": lambda ctx: __import__("rules.common", fromlist=["x"]).loop_exit_rule(ctx, "C09.RL", {'types::SourceMap::rewrite_with_mapping': 0, 'builder::SourceMapBuilder::strip_prefixes': 1}),
     "C09.R1": lambda ctx: bldrules.add_with_id(ctx, "C09.R1"),
